@@ -84,6 +84,13 @@ type World struct {
 	Base    int64 // real clock = Base + model clock
 	clock   int64
 	lastNow sync.Map // gid -> model time of the last clock read
+	// a tick armed inside a step (under mu)
+	tickProc   string
+	tickJump   int64
+	tickFired  bool
+	tickInside bool
+	// CorruptGzip: cacheable answers of the scripted upstream carry a gzip body that does not decode
+	CorruptGzip bool
 
 	mu        sync.Mutex
 	trace     []Event
@@ -174,11 +181,34 @@ func (w *World) now() int64 {
 	gid := sched.Gid()
 	w.lastNow.Store(gid, v)
 	w.mu.Lock()
-	if ri := w.reqGid[gid]; ri != nil && ri.HasAge && ri.AgeNow == -1 {
+	ri := w.reqGid[gid]
+	if ri != nil && ri.HasAge && ri.AgeNow == -1 {
 		ri.AgeNow = v
+	}
+	// a tick armed to happen inside this proc's step: right after its first clock read
+	if w.tickProc != "" && ri != nil && ri.Proc == w.tickProc && !ri.dead {
+		atomic.AddInt64(&w.clock, w.tickJump)
+		w.tickProc = ""
+		w.tickFired = true
 	}
 	w.mu.Unlock()
 	return w.Base + v
+}
+
+// ArmTick the clock advances by j right after the next clock read of proc p (a tick in the middle of a step)
+func (w *World) ArmTick(p string, j int64) {
+	w.mu.Lock()
+	w.tickProc, w.tickJump, w.tickFired, w.tickInside = p, j, false, true
+	w.mu.Unlock()
+}
+
+// DisarmTick reports whether the armed tick happened
+func (w *World) DisarmTick() bool {
+	w.mu.Lock()
+	defer w.mu.Unlock()
+	w.tickProc = ""
+	w.tickInside = false
+	return w.tickFired
 }
 
 func (w *World) last(gid int64) int64 {
@@ -227,7 +257,15 @@ func (w *World) Configure(cfgs []DispCfg) {
 	}
 }
 
+// Reapply applies the unchanged cache configuration again, as every configuration update does
+func (w *World) Reapply() { cache.ResetDispatchers(w.cacheConfigs()) }
+
 func (w *World) restartDispatchers() {
+	cache.ResetDispatchers(nil)
+	cache.ResetDispatchers(w.cacheConfigs())
+}
+
+func (w *World) cacheConfigs() []config.CacheConfig {
 	var ccs []config.CacheConfig
 	for _, c := range w.dispCfgs {
 		cc := config.CacheConfig{Name: c.Name, Size: c.Size}
@@ -241,8 +279,7 @@ func (w *World) restartDispatchers() {
 		}
 		ccs = append(ccs, cc)
 	}
-	cache.ResetDispatchers(nil)
-	cache.ResetDispatchers(ccs)
+	return ccs
 }
 
 // ResetStores forgets all persisted data
@@ -657,8 +694,14 @@ func (w *World) point(pt string, obj interface{}, args ...interface{}) {
 		if ri := w.reqGid[gid]; ri != nil {
 			// the clock and the lifetime are the true ones (harness clock, what the origin granted),
 			// not the values the code stamped on the entry
-			w.emitLocked(Event{"op": "Publish", "e": w.entID(obj), "d": ri.Disp, "k": ri.Key,
-				"v": respVer(st.Response), "now": w.Clock(), "cnow": w.last(gid), "ttl": ri.used.Granted(), "code_ttl": int(st.ExpiredAt - st.CreatedAt)})
+			ev := Event{"op": "Publish", "e": w.entID(obj), "d": ri.Disp, "k": ri.Key, "st": st.HasStore,
+				"v": respVer(st.Response), "now": w.Clock(), "cnow": w.last(gid), "ttl": ri.used.Granted(), "code_ttl": int(st.ExpiredAt - st.CreatedAt)}
+			if w.tickInside {
+				// the clock ticked inside this step: the moment of the publication is the one the code stamped
+				ev["inside"] = true
+				ev["cnow"] = st.CreatedAt - w.Base
+			}
+			w.emitLocked(ev)
 		}
 		w.mu.Unlock()
 	case "hfp.set":
@@ -667,8 +710,12 @@ func (w *World) point(pt string, obj interface{}, args ...interface{}) {
 		w.mu.Lock()
 		if ri := w.reqGid[gid]; ri != nil {
 			// the period is the configured one (<= 0: 300 s), counted from the true clock
-			w.emitLocked(Event{"op": "Hfp", "e": w.entID(obj), "d": ri.Disp, "k": ri.Key,
-				"now": w.Clock(), "cnow": now, "eff": w.effHfp(ri.Disp), "code_eff": int(st.ExpiredAt - w.Base - now)})
+			ev := Event{"op": "Hfp", "e": w.entID(obj), "d": ri.Disp, "k": ri.Key, "st": st.HasStore,
+				"now": w.Clock(), "cnow": now, "eff": w.effHfp(ri.Disp), "code_eff": int(st.ExpiredAt - w.Base - now)}
+			if w.tickInside {
+				ev["inside"] = true
+			}
+			w.emitLocked(ev)
 		}
 		w.mu.Unlock()
 	case "purge.lock":
@@ -828,6 +875,12 @@ func (w *World) upstreamHandler(rw http.ResponseWriter, req *http.Request) {
 	case "cacheable":
 		ttl = out.TTL
 		h.Set("Cache-Control", "max-age="+strconv.Itoa(out.TTL))
+		if w.CorruptGzip && ri.Proc != "" && out.Body == nil {
+			// an origin that labels as gzip something that is not: delivered as it is to clients accepting gzip
+			h.Set("Content-Encoding", "gzip")
+			h.Set("Content-Type", "text/plain")
+			out.Body = bytes.Repeat([]byte("this is not a gzip stream. "), 80)
+		}
 	case "raw":
 		ttl = out.Lifetime
 	default:
@@ -1064,6 +1117,11 @@ func (s *MemStore) Set(key []byte, data []byte, ttl time.Duration) error {
 		return errInjected
 	}
 	// the store has been handed the bytes but has not consumed them yet
+	s.w.mu.Lock()
+	if !s.w.dead[sched.Gid()] {
+		s.w.emitLocked(Event{"op": "SetTried", "k": s.w.kname(string(key))})
+	}
+	s.w.mu.Unlock()
 	s.w.S.Point("store.set")
 	s.mu.Lock()
 	defer s.mu.Unlock()
